@@ -689,6 +689,8 @@ func TestReaderSide(t *testing.T) {
 		}
 		funcExt := rapid.IntRange(0, 2).Draw(t, "funcext") == 0
 		freshReaders := rapid.IntRange(0, 3).Draw(t, "fresh-reader-per-message") == 0
+		intermMode := rapid.IntRange(0, 2).Draw(t, "onintermediate-reads") // all | nothing | half
+		hx.Class(fmt.Sprintf("reader/onintermediate=%s", map[bool]string{false: "nil", true: []string{"reads-all", "returns-at-once", "reads-half"}[intermMode]}[callbacks]))
 		var log []seen
 		newReader := func() *wsutil.Reader {
 			var ext wsutil.RecvExtension = &ms
@@ -702,7 +704,17 @@ func TestReaderSide(t *testing.T) {
 					return nil
 				}
 				rd.OnIntermediate = func(h ws.Header, r io.Reader) error {
-					p, err := io.ReadAll(r)
+					// the handler may read the control payload fully, partly or not at all
+					var p []byte
+					var err error
+					switch intermMode {
+					case 0:
+						p, err = io.ReadAll(r)
+					case 1:
+					default:
+						p = make([]byte, h.Length/2)
+						_, err = io.ReadFull(r, p)
+					}
 					log = append(log, seen{kind: 'i', h: h, state: ms.IsCompressed(), payload: p})
 					return err
 				}
@@ -829,8 +841,17 @@ func TestReaderSide(t *testing.T) {
 					if s.state != flag {
 						t.Fatalf("frame %d (%c): message state reports compressed=%v inside a message whose first frame had RSV1=%v\n%s", j, s.kind, s.state, flag, desc())
 					}
-					if s.kind == 'i' && !bytes.Equal(s.payload, g.Payload) {
-						t.Fatalf("frame %d: intermediate control payload %x, want %x", j, s.payload, g.Payload)
+					if s.kind == 'i' {
+						wantP := g.Payload
+						switch intermMode {
+						case 1:
+							wantP = nil
+						case 2:
+							wantP = g.Payload[:len(g.Payload)/2]
+						}
+						if !bytes.Equal(s.payload, wantP) {
+							t.Fatalf("frame %d: intermediate control payload seen by the handler %x, want %x", j, s.payload, wantP)
+						}
 					}
 				}
 				if k != len(log) {
@@ -1133,16 +1154,31 @@ func TestEndToEnd(t *testing.T) {
 		var msR wsflate.MessageState
 		var ctlGot [][]byte
 		freshReaders := rapid.IntRange(0, 3).Draw(t, "fresh-reader-per-message") == 0
+		intermMode := rapid.IntRange(0, 3).Draw(t, "onintermediate") // nil | reads all | returns at once | reads half
+		hx.Class(fmt.Sprintf("e2e/onintermediate=%d", intermMode))
 		newReader := func() *wsutil.Reader {
 			var ext wsutil.RecvExtension = &msR
 			if funcExt {
 				ext = wsutil.RecvExtensionFunc(msR.UnsetBits)
 			}
 			rd := &wsutil.Reader{Source: src, State: rstate, Extensions: []wsutil.RecvExtension{ext}}
-			rd.OnIntermediate = func(h ws.Header, r io.Reader) error {
-				p, err := io.ReadAll(r)
-				ctlGot = append(ctlGot, append([]byte{byte(h.OpCode)}, p...))
-				return err
+			switch intermMode {
+			case 0: // no handler: intermediate control frames are dropped by the reader
+			default:
+				rd.OnIntermediate = func(h ws.Header, r io.Reader) error {
+					var p []byte
+					var err error
+					switch intermMode {
+					case 1:
+						p, err = io.ReadAll(r)
+					case 2: // returns at once
+					default:
+						p = make([]byte, h.Length/2)
+						_, err = io.ReadFull(r, p)
+					}
+					ctlGot = append(ctlGot, append([]byte{byte(h.OpCode)}, p...))
+					return err
+				}
 			}
 			return rd
 		}
